@@ -121,12 +121,18 @@ func GenPlan(t *rapid.T, profile string, k Knobs) *Plan {
 		groups = rapid.IntRange(1, k.MaxGroups).Draw(t, "groups")
 	}
 	latMax := time.Duration(float64(h) * k.LatFrac)
+	oddGroups := groups > 1 && rapid.IntRange(0, 3).Draw(t, "odd_group_names") == 0
 	tiePrio := 0
 	if k.TakeoverTies && rapid.Bool().Draw(t, "takeover_ties") {
 		tiePrio = rapid.SampledFrom([]int{1, 5, 100}).Draw(t, "tie_prio")
 	}
 	for i := 0; i < n; i++ {
 		in := Inst{ID: fmt.Sprintf("i%d", i), Group: fmt.Sprintf("g%d", i%groups)}
+		if oddGroups {
+			// names that differ only in characters a store's key syntax might not like (the library uses the
+			// group name as the key, verbatim)
+			in.Group = []string{"team a", "team_a", "team:a"}[i%groups]
+		}
 		in.Lat = genLatList(t, latMax, fmt.Sprintf("lat%d_", i))
 		if k.WatchDelayH > 0 && rapid.IntRange(0, 3).Draw(t, "wd_on") > 0 {
 			in.WatchDelay = genLatList(t, time.Duration(float64(h)*k.WatchDelayH), fmt.Sprintf("wd%d_", i))
